@@ -453,6 +453,28 @@ func (w *walker) assign(s *ast.AssignStmt) {
 					w.opaque(s.Pos(), "assignment to the receiver variable")
 					continue
 				}
+				// dests := make([]T, p.Count) in a decoder: a local list that is filled element by element and assigned to its
+				// field afterwards; it gets a provisional root that the assignment re-roots
+				if mk, isMk := v.(vMake); isMk && !w.encode && s.Tok == token.DEFINE {
+					if _, isSlice := obj.Type().Underlying().(*types.Slice); isSlice && !isByteSlice(obj.Type()) {
+						var cnt Path
+						switch sz := mk.size.(type) {
+						case vPath:
+							cnt = sz.P
+						case vRead:
+							cnt = sz.Op.Field
+						}
+						if !cnt.IsZero() {
+							lp := Path{Root: &Root{Name: "local:" + id.Name}}
+							if w.made == nil {
+								w.made = map[string]Path{}
+							}
+							w.made[lp.String()] = cnt
+							w.env[obj] = vPath{P: lp}
+							continue
+						}
+					}
+				}
 				// append(list, x) where list is a local alias is not interpreted
 				w.env[obj] = v
 				if o, ok := v.(vOpaque); ok && s.Tok == token.DEFINE {
@@ -519,6 +541,18 @@ func (w *walker) store(p Path, v val, rhsExpr ast.Expr, pos token.Pos) {
 		}
 	case vOpaque:
 		w.opaque(pos, "field "+p.String()+" assigned from "+v.why)
+	case vPath:
+		// p.List = dests: the local list filled above becomes the field
+		if !w.encode && v.P.Root != nil && strings.HasPrefix(v.P.Root.Name, "local:") && len(v.P.Elems) == 0 {
+			if cnt, ok := w.made[v.P.String()]; ok {
+				w.made[p.String()] = cnt
+			}
+			w.reroot(w.seq.Ops, v.P.Root, p)
+			return
+		}
+		if !w.encode {
+			w.opaque(pos, fmt.Sprintf("field %s assigned from a non-read value %T", p, v))
+		}
 	default:
 		if !w.encode {
 			// decode: a field assigned from something that is not a read (e.g. append of a read value)
